@@ -79,7 +79,9 @@ impl<T: ?Sized> RwLock<T> {
     match rt::sched_point(Wait::Read(a)) {
       Mode::Model(ctx) => {
         let g = self.try_read_real().expect("arx_rt: model granted a read the real lock refuses");
-        Ok(RwLockReadGuard { inner: Some(g), rel: Some((ctx, a)) })
+        let guard = RwLockReadGuard { inner: Some(g), rel: Some((ctx.clone(), a)) };
+        rt::post_acquire_point(&ctx);
+        Ok(guard)
       }
       Mode::Free => {
         let g = match self.inner.read() {
@@ -101,7 +103,9 @@ impl<T: ?Sized> RwLock<T> {
       Mode::Model(ctx) => {
         let g =
           self.try_write_real().expect("arx_rt: model granted a write the real lock refuses");
-        Ok(RwLockWriteGuard { inner: Some(g), rel: Some((ctx, a)) })
+        let guard = RwLockWriteGuard { inner: Some(g), rel: Some((ctx.clone(), a)) };
+        rt::post_acquire_point(&ctx);
+        Ok(guard)
       }
       Mode::Free => {
         let g = match self.inner.write() {
@@ -114,6 +118,36 @@ impl<T: ?Sized> RwLock<T> {
         let g = free_try(|| self.try_write_real());
         Ok(RwLockWriteGuard { inner: Some(g), rel: None })
       }
+    }
+  }
+
+  pub fn try_read(&self) -> std::sync::TryLockResult<RwLockReadGuard<'_, T>> {
+    let a = self.addr();
+    match rt::try_acquire(Wait::Read(a)) {
+      rt::TryMode::Granted(ctx) => {
+        let g = self.try_read_real().expect("arx_rt: model granted a try_read the real lock refuses");
+        Ok(RwLockReadGuard { inner: Some(g), rel: Some((ctx, a)) })
+      }
+      rt::TryMode::Refused => Err(TryLockError::WouldBlock),
+      rt::TryMode::Free => match self.try_read_real() {
+        Some(g) => Ok(RwLockReadGuard { inner: Some(g), rel: None }),
+        None => Err(TryLockError::WouldBlock),
+      },
+    }
+  }
+
+  pub fn try_write(&self) -> std::sync::TryLockResult<RwLockWriteGuard<'_, T>> {
+    let a = self.addr();
+    match rt::try_acquire(Wait::Write(a)) {
+      rt::TryMode::Granted(ctx) => {
+        let g = self.try_write_real().expect("arx_rt: model granted a try_write the real lock refuses");
+        Ok(RwLockWriteGuard { inner: Some(g), rel: Some((ctx, a)) })
+      }
+      rt::TryMode::Refused => Err(TryLockError::WouldBlock),
+      rt::TryMode::Free => match self.try_write_real() {
+        Some(g) => Ok(RwLockWriteGuard { inner: Some(g), rel: None }),
+        None => Err(TryLockError::WouldBlock),
+      },
     }
   }
 
@@ -235,7 +269,9 @@ impl<T: ?Sized> Mutex<T> {
     match rt::sched_point(Wait::Lock(a)) {
       Mode::Model(ctx) => {
         let g = self.try_lock_real().expect("arx_rt: model granted a mutex the real one refuses");
-        Ok(MutexGuard { mutex: self, inner: Some(g), rel: Some((ctx, a)) })
+        let guard = MutexGuard { mutex: self, inner: Some(g), rel: Some((ctx.clone(), a)) };
+        rt::post_acquire_point(&ctx);
+        Ok(guard)
       }
       Mode::Free => {
         let g = match self.inner.lock() {
@@ -248,6 +284,21 @@ impl<T: ?Sized> Mutex<T> {
         let g = free_try(|| self.try_lock_real());
         Ok(MutexGuard { mutex: self, inner: Some(g), rel: None })
       }
+    }
+  }
+
+  pub fn try_lock(&self) -> std::sync::TryLockResult<MutexGuard<'_, T>> {
+    let a = self.addr();
+    match rt::try_acquire(Wait::Lock(a)) {
+      rt::TryMode::Granted(ctx) => {
+        let g = self.try_lock_real().expect("arx_rt: model granted a try_lock the real mutex refuses");
+        Ok(MutexGuard { mutex: self, inner: Some(g), rel: Some((ctx, a)) })
+      }
+      rt::TryMode::Refused => Err(TryLockError::WouldBlock),
+      rt::TryMode::Free => match self.try_lock_real() {
+        Some(g) => Ok(MutexGuard { mutex: self, inner: Some(g), rel: None }),
+        None => Err(TryLockError::WouldBlock),
+      },
     }
   }
 
